@@ -377,7 +377,7 @@ func (e *evaluator) sortArrayBy(value any, node parser.Node, variables *variable
 			by:    by,
 		}
 
-		sort.Sort(r)
+		sort.Stable(r)
 		return r.items, nil
 	}
 
@@ -414,7 +414,7 @@ func (e *evaluator) sortArrayBy(value any, node parser.Node, variables *variable
 		by:    by,
 	}
 
-	sort.Sort(r)
+	sort.Stable(r)
 	return r.items, nil
 }
 
